@@ -141,7 +141,11 @@ def slotSem : Slots.SlotSem :=
       before l (fun a => a.isCall "Lock" && a.recv == "wf.concurrentTasksMx") (·.isSend "concurrentTasks") &&
       before l (·.isSend "concurrentTasks") (fun a => a.isCall "Unlock" && a.recv == "wf.concurrentTasksMx") &&
       count (·.isCall "Unlock") l == 1 && count (·.isCall "Lock") l == 1 &&
-      count (fun a => a.kind == .ret_ || a.kind == .go_ || a.kind == .goB_) l == 0 }
+      count (fun a => a.kind == .ret_ || a.kind == .go_ || a.kind == .goB_) l == 0 &&
+      -- taken unconditionally: no branching at all, the deposit loop is the only block
+      count (fun a => a.kind == .ifB_ || a.kind == .elseB_ || a.kind == .switchB_ || a.kind == .selectB_ ||
+        a.kind == .caseB_ || a.kind == .rangeB_ || a.kind == .break_ || a.kind == .goto_ || a.kind == .deferB_ || a.kind == .funcB_) l == 0 &&
+      count (fun a => a.kind == .forB_) l == 1 }
 
 /-- deposits exactly `slots` tokens, takes exactly `slots` tokens; `Execute` passes `t.cores` to both;
 the channel is created with capacity `maxConcurrentTasks` -/
